@@ -786,6 +786,18 @@ func eventLogMain(e Engine, args []string) int {
 		src := vs.NewSource(s)
 		r := e.Run(src, *tier, idx)
 		tb, _ := json.Marshal(src.Trace())
+		// allocation meters read runtime counters that are not a function of
+		// the seed; everything else must be.
+		for k := range r.Stats {
+			if strings.Contains(k, "alloc") {
+				delete(r.Stats, k)
+			}
+		}
+		for k := range r.Max {
+			if strings.Contains(k, "alloc") {
+				delete(r.Max, k)
+			}
+		}
 		rb, _ := json.Marshal(r)
 		ht := sha256.Sum256(tb)
 		hr := sha256.Sum256(rb)
